@@ -20,7 +20,12 @@ def find_fn(prog, name, self_suffix=None, trait=None, crate=None):
         if crate and c.name != crate:
             continue
         if self_suffix is not None:
-            if "impl_self" not in b or not c.tstr(b["impl_self"]).endswith(self_suffix):
+            if "impl_self" not in b:
+                continue
+            st_ = c.tstr(b["impl_self"])
+            # `ast::Operator` also names `ast::operator::Operator` (the type moved into a submodule of the same module)
+            mod_, _, nm_ = self_suffix.rpartition("::")
+            if not (st_.endswith(self_suffix) or (mod_ and st_.endswith("::" + nm_) and (st_.startswith(mod_ + "::") or ("::" + mod_ + "::") in st_))):
                 continue
         if trait is not None and b.get("impl_trait") != trait:
             continue
@@ -94,13 +99,184 @@ def variants_of(prog, adt):
     return [v["name"] for v in a["variants"]] if a else []
 
 
+def eval_for_variant(prog, body, adt, variant, depth=0):
+    """Value of the method `body` (fn(&self) of enum `adt`) for self = `variant`, computed from the code: nested matches on self and
+    on values other methods of the enum return (`match self.class() { Keyword => .., Symbol => match self { .. } }`), small enums of
+    the module and their methods (`LookAhead::OneChar.len()`), matches!, constants.  -> literal value | ("variant", path) | None"""
+    c = body["_crate"]
+    self_ids = set()
+    if body["params"] and body["params"][0].get("k") == "Binding":
+        self_ids.add(body["params"][0]["id"])
+
+    def is_self(e):
+        e = hir.strip_ref(hir.strip(e))
+        while e.get("k") == "Unary" and e.get("op") in ("*", "Deref"):
+            e = hir.strip_ref(hir.strip(e["e"]))
+        pl = hir.path_local(e)
+        return bool(pl) and pl["id"] in self_ids
+
+    def pat_hits(p, val):
+        """does pattern p match the value (a variant of some enum, payload unknown)?  True / False / None"""
+        p = hir.pat_strip(p)
+        k = p.get("k")
+        if k == "Or":
+            vs = [pat_hits(q, val) for q in p["pats"]]
+            return True if any(v is True for v in vs) else (False if all(v is False for v in vs) else None)
+        if k == "Wild" or (k == "Binding" and not p.get("sub")):
+            return True
+        if k == "Binding":
+            return pat_hits(p["sub"], val)
+        v = hir.pat_variant(p)
+        if v is not None and isinstance(val, tuple) and val[0] == "variant":
+            return v == val[1]
+        if k == "Lit" and not isinstance(val, tuple):
+            return str(p["lit"].get("v")) == str(val)
+        return None
+
+    NONE_V = ("variant", "core::option::Option::None")
+
+    class _Return(Exception):
+        def __init__(self, v):
+            self.v = v
+
+    class _Unknown(Exception):
+        pass
+
+    env = {}
+
+    def bind(p, val):
+        """bind pattern p to val; True if it matches, False if not, raises _Unknown if that cannot be told"""
+        p = hir.pat_strip(p)
+        k = p.get("k")
+        if k == "Wild":
+            return True
+        if k == "Binding":
+            env[p["id"]] = val
+            return bind(p["sub"], val) if p.get("sub") else True
+        if k == "TupleStruct":
+            v = hir.pat_variant(p) or ""
+            if last(v) == "Some" and v.startswith("core::"):
+                if val == NONE_V:
+                    return False
+                if val is None:
+                    raise _Unknown()
+                return all(bind(q, val) for q in p["pats"])
+        h = pat_hits(p, val)
+        if h is None:
+            raise _Unknown()
+        return h
+
+    def ev(e, d):
+        e = hir.strip(e)
+        k = e.get("k")
+        if d > 14:
+            return None
+        if k == "Lit":
+            return e["lit"].get("v")
+        if k == "Path":
+            if is_self(e):
+                return ("variant", adt + "::" + variant)
+            pl = hir.path_local(e)
+            if pl and pl["id"] in env:
+                return env[pl["id"]]
+            r = e["res"]
+            if r.get("k") == "Def":
+                if str(r.get("dk", "")).startswith("Const") or str(r.get("dk", "")).startswith("AssocConst"):
+                    return const_value(prog, r["p"])
+                if r.get("ctor_of"):
+                    return ("variant", r["ctor_of"])
+            return None
+        if k == "Call":
+            dd = hir.path_def(e["f"])
+            if dd and dd.get("ctor_of") and last(dd["ctor_of"]) in ("Some", "Ok") and len(e["args"]) == 1:
+                return ev(e["args"][0], d + 1)
+            return None
+        if k == "Ret":
+            raise _Return(ev(e["e"], d + 1) if e.get("e") is not None else None)
+        if k in ("BlockExpr", "Block"):
+            b_ = e["b"] if k == "BlockExpr" else e
+            for st in b_.get("stmts") or []:
+                if st.get("k") == "Item":
+                    continue
+                inner = hir.stmt_inner(st)
+                if inner is not None:
+                    ev(inner, d + 1)
+                elif st.get("k") == "Let" and st.get("init") is not None:
+                    try:
+                        if not bind(st["pat"], ev(st["init"], d + 1)) and st.get("els") is not None:
+                            ev(st["els"], d + 1)
+                    except _Unknown:
+                        raise
+                else:
+                    raise _Unknown()
+            return ev(b_["expr"], d + 1) if b_.get("expr") is not None else None
+        if k == "If":
+            cond = hir.strip(e["cond"])
+            if cond.get("k") == "LetExpr":
+                taken = bind(cond["pat"], ev(cond["init"], d + 1))
+            else:
+                cv = ev(cond, d + 1)
+                if cv not in (True, False):
+                    raise _Unknown()
+                taken = cv
+            if taken:
+                return ev(e["then"], d + 1)
+            return ev(e["else"], d + 1) if e.get("else") is not None else None
+        if k == "Match":
+            sv = ev(e["scrut"], d + 1)
+            if sv is None:
+                return None
+            for arm in e["arms"]:
+                try:
+                    h = bind(arm["pat"], sv)
+                except _Unknown:
+                    return None
+                if h and arm.get("guard") is not None:
+                    return None
+                if h:
+                    return ev(arm["body"], d + 1)
+            return None
+        if k == "MethodCall":
+            rv = ev(e["recv"], d + 1)
+            if isinstance(rv, tuple) and rv[0] == "variant" and not e["args"]:
+                hb = hir.local_callee_body(prog, e)
+                enum_p = rv[1].rsplit("::", 1)[0]
+                if hb is not None and "impl_self" in hb and hir.adt_path(hb["_crate"], hb["impl_self"]) == enum_p:
+                    return eval_for_variant(prog, hb, enum_p, last(rv[1]), depth + 1) if depth < 4 else None
+            return None
+        if k == "Cast":
+            return ev(e["e"], d + 1)
+        return None
+    try:
+        return ev(body["body"], 0)
+    except _Return as r_:
+        return r_.v
+    except _Unknown:
+        return None
+
+
 def _single_table(out, prog, name, self_suffix, adt, trait=None):
     bs = find_fn(prog, name, self_suffix, trait)
     if len(bs) != 1:
         out.missing("%s::%s" % (self_suffix, name))
         return None
     ts = match_tables(prog, bs[0], adt)
+    whole = hir.strip(bs[0]["body"])
+    if whole.get("k") == "BlockExpr" and all(s_.get("k") == "Item" for s_ in whole["b"].get("stmts") or []) and whole["b"].get("expr") is not None:
+        whole = hir.strip(whole["b"]["expr"])      # (`use TokenType::*;` in front of the match)
+    if len(ts) == 1 and whole is not ts[0][0] and not (whole.get("k") == "Match" and "matches!" in (whole.get("mx") or [])):
+        # the one match on self is only a part of the function (early returns in front of it, a wrapper around it)
+        ts = []
     if len(ts) != 1:
+        # not one flat `match self`: the table is computed (a classification first, nested matches, a small enum for the answer):
+        # evaluated variant by variant
+        table = {}
+        for v in variants_of(prog, adt):
+            val = eval_for_variant(prog, bs[0], adt, v)
+            if val is not None:
+                table[v] = val
+        if len(table) >= max(1, len(variants_of(prog, adt)) // 2):
+            return bs[0], (bs[0]["body"], table, None, False)
         out.missing("match table in %s::%s" % (self_suffix, name))
         return None
     return bs[0], ts[0]
@@ -346,6 +522,7 @@ def rule_tables(prog):
         out.add("<Token as Lexer>::lex", "T3 order: " + what, bool(ok), loc_lex, why, ("T3", "lexer"))
 
     # T4: operators are printed as the lexeme they were lexed from
+    OP = next((p_ for p_ in sorted(prog.adts) if p_.startswith("spl_frontend::ast::") and p_.endswith("::Operator")), "spl_frontend::ast::Operator")
     tf = find_fn(prog, "try_from", "ast::Operator")
     disp = find_fn(prog, "fmt", "ast::Operator", "core::fmt::Display")
     arith = _single_table(out, prog, "is_arithmetic", "ast::Operator", OP)
@@ -354,6 +531,13 @@ def rule_tables(prog):
         return out
     tft = match_tables(prog, tf[0], TT)
     dt = match_tables(prog, disp[0], OP)
+    if not dt:
+        # Display writes what a method of the operator hands it (`fn symbol(&self) -> &'static str`): that method holds the table
+        for ob in c.bodies:
+            if ob["k"] == "assoc_fn" and "impl_self" in ob and hir.adt_path(c, ob["impl_self"]) == OP and ob is not disp[0] and \
+                    "str" in c.tstr(ob.get("sig_out", 0) or 0) and any(
+                        (hir.callee(x_) or "") == ob["p"] for x_ in hir.nodes(disp[0]["body"]) if x_.get("k") in ("Call", "MethodCall")):
+                dt = match_tables(prog, ob, OP)
     if len(tft) != 1 or len(dt) != 1:
         out.missing("match tables of Operator::try_from / Display for Operator")
         return out
@@ -621,7 +805,16 @@ def rule_variants(prog):
             out.missing("Display for " + enum)
             continue
         texts = {}
-        for m in hir.nodes(disp[0]["body"], "Match"):
+        # the text table: the match over the variants in Display::fmt, or - when fmt only writes what a method of the enum hands it
+        # (`fn text(&self) -> String`) - in that method
+        text_bodies = [disp[0]]
+        if not any(m["src"] == "match" and any((hir.pat_variant(alt) or "").startswith(adt + "::") for arm in m["arms"]
+                                                for alt in hir.pat_alternatives(arm["pat"])) for m in hir.nodes(disp[0]["body"], "Match")):
+            for ob in c.bodies:
+                if ob["k"] == "assoc_fn" and "impl_self" in ob and hir.adt_path(c, ob["impl_self"]) == adt and ob is not disp[0] and \
+                        not any("derive" in str(x_) for x_ in (ob.get("mx") or [])) and "String" in c.tstr(ob.get("sig_out", 0) or 0):
+                    text_bodies.append(ob)
+        for m in [m_ for tb_ in text_bodies for m_ in hir.nodes(tb_["body"], "Match")]:
             if m["src"] != "match":
                 continue
             for arm in m["arms"]:
@@ -630,7 +823,8 @@ def rule_variants(prog):
                     if pv and pv.startswith(adt + "::"):
                         lits = tuple(n["lit"].get("v") for n in hir.nodes(arm["body"], "Lit")
                                      if n["lit"]["k"] in ("str", "bytes"))
-                        texts[last(pv)] = lits
+                        if lits or last(pv) not in texts:
+                            texts[last(pv)] = lits
         for v in vs:
             mine = texts.get(v)
             dup = [o for o, t in texts.items() if o != v and t == mine]
